@@ -462,8 +462,10 @@ std::optional<int64_t> CgroupContext::getPgScanCumulative(
   if (const auto& memstat = memory_stat(err)) {
     if (auto pos = memstat->find(kPgScan); pos != memstat->end()) {
       return std::make_optional(pos->second);
-    } else {
-      throw std::runtime_error("Bad memory.stat format: missing pgscan entry");
+    } else if (err) {
+      // not every kernel reports pgscan: unavailable, like the other optional
+      // memory.stat keys
+      *err = Error::INVALID_CGROUP;
     }
   }
   return std::nullopt;
